@@ -252,6 +252,10 @@ def binop(I, op, a, b):
     elif isinstance(op, ast.Div):
         theory.use("T-np.true division by nonzero (division by zero -> inf/nan not modelled)")
         f = lambda x, y: x / y
+    elif isinstance(op, ast.Mod) and k == "real":
+        theory.use("T-fp.real modulo uninterpreted")
+        modf_ = z3.Function("np_fmod", z3.RealSort(), z3.RealSort(), z3.RealSort())
+        f = lambda x, y: modf_(x, y)
     elif isinstance(op, ast.FloorDiv) and k == "int" and isinstance(b, int) and b > 0:
         f = lambda x, y: x / y  # z3 integer division is floor division for a positive divisor
     else:
@@ -549,6 +553,11 @@ def setitem(I, a, idx, value):
             a.elem = lambda r, c, _o=old, _v=vke: z3.If(Z(c) == Z(jj), _v(), _o(r, c))
         else:
             a.elem = lambda r, c, _o=old: z3.If(Z(c) == Z(jj), val_at(), _o(r, c))
+        return
+    if isinstance(idx, tuple) and len(idx) == 2 and is_int_like(idx[0]) and is_int_like(idx[1]) and a.ndim == 2:
+        ii = check_index(I, idx[0], a.shape[0])
+        jj = check_index(I, idx[1], a.shape[1])
+        a.elem = lambda r, c, _o=old: z3.If(z3.And(Z(r) == Z(ii), Z(c) == Z(jj)), val_at(), _o(r, c))
         return
     if isinstance(idx, (PList, list)):
         idx = as_arr(I, idx)
@@ -1239,6 +1248,20 @@ def np_modf(I, args, kw):
         return z3.If(x >= 0, fl, z3.If(z3.ToReal(fl) == x, fl, fl + 1))
 
     return (Arr(a.shape, lambda *idx: src(*idx) - z3.ToReal(trunc(src(*idx))), "real", "modf.frac"), Arr(a.shape, lambda *idx: z3.ToReal(trunc(src(*idx))), "real", "modf.int"))
+
+
+@model(np.divide)
+def np_divide(I, args, kw):
+    a, b = args[0], args[1]
+    where = kw.get("where")
+    shape, fa, fb, ka, kb = broadcast2(I, a, b)
+    if where is None:
+        return binop(I, ast.Div(), a, b)
+    theory.use("T-np.divide(where=): masked-out entries are arbitrary finite reals (uninitialised memory is not modelled)")
+    w = as_arr(I, where)
+    junk = z3.Function(fresh_name("uninit"), *([z3.IntSort()] * len(shape)), z3.RealSort())
+    we = fz(w)
+    return Arr(shape, lambda *idx: z3.If(we(*idx), to_real(fa(*idx) if z3.is_expr(fa(*idx)) else zk(fa(*idx), "real")) / to_real(fb(*idx) if z3.is_expr(fb(*idx)) else zk(fb(*idx), "real")), junk(*[Z(i) for i in idx])), "real", "divide")
 
 
 @model(np.isfinite)
